@@ -21,7 +21,8 @@ def gen_cases(ctx):
         if ndim > 1 and c["inner"] == "abs":
             # sqrt per point: not exact on the lattice -> engines compared with each other only (float mode)
             c["float_mode"] = True
-            c["max_step"] = None
+            # half-integer bounds never coincide with a point distance sqrt(integer): no tie at the threshold
+            c["max_step"] = rng.choice([None, None, 1.5, 2.5, 3.5])
         # thresholds / pruning: settings expressible in both engines
         k2 = rng.random()
         if k2 < 0.15:
@@ -81,7 +82,7 @@ def run(ctx):
             if not agree(val, py, ulps=16):
                 if case.get("max_length_diff") == 0 and r_ != c_ and py == "inf" and ctx.known(res, "C02-MLD0", case):
                     continue
-                invalid_ub = case.get("use_pruning") and ((case.get("penalty") and r_ != c_)
+                invalid_ub = case.get("use_pruning") and ((case.get("penalty") and r_ != c_) or case.get("max_step")
                                                           or any(dc.psi_tuple(case.get("psi"))))
                 if invalid_ub and py == "inf" and ctx.known(res, "C02-PRUNE-INVALID-UB", case):
                     continue
